@@ -48,7 +48,7 @@ def rand_blocks(rnd, n=None, fault=True):
             conf.update(idur=rnd.choice([2, 4, 6, 30]), itmo=rnd.choice([4, 8, 12]))
         elif k == 'slowstop':
             conf.update(slowstop=rnd.choice([0, 2, 4, 60]), tmo=rnd.choice([8, 12]),
-                        busytail=rnd.choice([0, 0, 2, 3]))
+                        busytail=rnd.choice([0, 0, 2, 3]), cl=rnd.choice([0, 0, 2]))
         elif k == 'repeat' and rnd.random() < 0.25:
             conf.update(tmo=0)          # stop_timeout=0: the asynchronous clean-up is disabled
         elif k == 'trig':
@@ -112,7 +112,8 @@ def rand_stim(rnd, check):
     r = rnd.random()
     if r < 0.1:
         # several clean-up routines hang: the whole clean-up is bounded by the largest stop_timeout
-        blocks = blocks[:2] + [{'kind': 'slowstop', 'slowstop': 60, 'tmo': t} for t in rnd.sample([4, 6, 8, 12], rnd.randint(2, 3))]
+        blocks = blocks[:2] + [{'kind': 'slowstop', 'slowstop': 60, 'tmo': t, 'cl': rnd.choice([0, 1, 2])}
+                               for t in rnd.sample([4, 6, 8, 12], rnd.randint(2, 3))]
     elif r < 0.2:
         # a timer becomes due while a clean-up routine blocks the loop
         blocks = blocks[:2] + [{'kind': 'timer'}, {'kind': 'slowstop', 'slowstop': rnd.choice([1, 2, 3]), 'tmo': 12,
